@@ -5,7 +5,7 @@
    contract: assumed, and exercised at every truncation offset by the correspondence run. *)
 From Coq Require Import List Arith.
 Import ListNotations.
-From SedV Require Import Frame Reader StreamM.
+From SedV Require Import Frame Reader StreamM ReaderProofs.
 
 (* every proper prefix of one pickle is reported as truncated: no value is produced from an incomplete pickle *)
 Theorem C19_prefix_free : forall classify stopb ops, Forall (wf_inst classify) ops -> forall k fuel,
@@ -34,6 +34,21 @@ Proof. exact @reader_prefix. Qed.
 
 Theorem C19_count_bounded : forall lens k, prefix_count lens k <= length lens.
 Proof. exact prefix_count_le. Qed.
+
+(* the count is exactly the number of leading pickles that lie entirely before the cut: they fit, and one more would not *)
+Theorem C19_count_exact : forall lens k,
+  list_sum (firstn (prefix_count lens k) lens) <= k /\
+  (prefix_count lens k < length lens -> k < list_sum (firstn (S (prefix_count lens k)) lens)).
+Proof. exact prefix_count_spec. Qed.
+
+(* a later cut never yields fewer records, and a file that opens at one cut opens at every later one *)
+Theorem C19_monotone : forall lens k k' n, k <= k' -> reader_m lens k = Some n ->
+  exists n', reader_m lens k' = Some n' /\ n <= n'.
+Proof. exact reader_mono. Qed.
+
+(* the uncut file (three header pickles and the records) yields every record *)
+Theorem C19_uncut : forall lens k, 3 <= length lens -> list_sum lens <= k -> reader_m lens k = Some (length lens - 3).
+Proof. exact reader_full. Qed.
 
 Example C19_example : reader_m [10; 20; 30; 100; 120] 175 = Some 1 /\ reader_m [10; 20; 30; 100; 120] 59 = None
                       /\ cut_status [10; 20; 30; 100; 120] 160 = Eof /\ cut_status [10; 20; 30; 100; 120] 175 = Trunc.
